@@ -6,7 +6,7 @@ import os
 import subprocess
 import sys
 
-REPO = "/repo"
+REPO = os.environ.get("VERIF_REPO", "/repo")
 ROOT = os.path.dirname(os.path.dirname(os.path.abspath(__file__)))
 
 
@@ -19,7 +19,7 @@ def main():
     d = os.path.abspath(sys.argv[1])
     meta = json.load(open(os.path.join(d, "meta.json")))
     checks = sys.argv[2:] or [meta["property"]]
-    rc, out = sh("git -C /repo status --porcelain")
+    rc, out = sh(f"git -C {REPO} status --porcelain")
     assert out.strip() == "", "repo not clean: " + out
     res = {"dir": d, "property": meta["property"]}
     # the evidence files must describe runs on the unchanged tree: keep them aside during the run
@@ -29,11 +29,11 @@ def main():
         if os.path.exists(ev):
             saved[ev] = open(ev, "rb").read()
     try:
-        rc, out = sh(f"git -C /repo apply {d}/patch.diff")
+        rc, out = sh(f"git -C {REPO} apply {d}/patch.diff")
         assert rc == 0, out
-        rc, out = sh("cd /repo && /venv/bin/python -m pytest -q -p no:cacheprovider 2>&1 | tail -1")
+        rc, out = sh(f"cd {REPO} && /venv/bin/python -m pytest -q -p no:cacheprovider 2>&1 | tail -1")
         res["tests"] = out.strip()
-        rc, out = sh(f"cd /tmp && PYTHONPATH=/repo /venv/bin/python {d}/demo.py")
+        rc, out = sh(f"cd /tmp && PYTHONPATH={REPO} /venv/bin/python {d}/demo.py")
         res["demo_with_patch"] = rc
         for c in checks:
             rc, out = sh(f"cd {ROOT} && ./check {c}", timeout=1800)
@@ -47,10 +47,10 @@ def main():
                 except Exception as e:
                     res["check_" + c]["replay"] = str(e)
     finally:
-        sh("git -C /repo checkout -- . && git -C /repo clean -fdq schwifty")
+        sh(f"git -C {REPO} checkout -- . && git -C {REPO} clean -fdq schwifty")
         for ev, data in saved.items():
             open(ev, "wb").write(data)
-    rc, out = sh(f"cd /tmp && PYTHONPATH=/repo /venv/bin/python {d}/demo.py")
+    rc, out = sh(f"cd /tmp && PYTHONPATH={REPO} /venv/bin/python {d}/demo.py")
     res["demo_reverted"] = rc
     print(json.dumps(res, indent=1, ensure_ascii=False))
     confirmed = res.get("demo_with_patch") == 1 and res.get("demo_reverted") == 0 and \
